@@ -100,7 +100,9 @@ def run_case(case):
     tp = simcase.first_bad([p.vals for p in v0.pars.values() if not simcase._is_output_only(p)])
     if tp is not None:
         return {"records": [], "stats": {"nonfinite_parameter_runs": 1}, "nontrivial": False, "excluded": "non-finite parameter"}
-    cont = continuous(spec) and spec["meta"]["vclass"] in ("mild", "binding_limits", "empty", "zero")
+    # programme start/stop years and stepped overwrite series are discontinuous in time: a grid point that differs in the
+    # last bit can fall on the other side of such a date, so runs with programmes are only judged on bit-identical grids
+    cont = continuous(spec) and ps is None and spec["meta"]["vclass"] in ("mild", "binding_limits", "empty", "zero")
     prev_res, prev_arrays, prev_t = r0, digest.result_arrays(r0), np.array(r0.model.t, dtype=float)
     prev_parset = parset
     nontrivial = False
